@@ -533,7 +533,7 @@ def run(chk):
     common.use_repo()
     rng = chk.rng
     quick = chk.tier == 'quick'
-    n = 3000 if quick else 24000
+    n = 3000 if quick else 30000
     tmp = tempfile.mkdtemp(prefix='penman-c09-')
     try:
         for start in range(0, n, 3000):
